@@ -140,13 +140,15 @@ class Battery:
 
 def gen_battery(rng, vo, raising=0.0):
     kind = rng.choice(["linear", "exp", "sag", "plateau"])
-    a = abs(vo)
+    a = abs(vo) or 3.7          # a battery model for a Source declared at 0 V: any nominal voltage will do (batt_life overwrites vo)
     v0 = float("%.4g" % (a * rng.uniform(0.85, 1.1)))
     vend = float("%.4g" % (v0 * rng.uniform(0.6, 0.92)))
     cap0 = gen.sd(rng, 0.02, 400.0)
     n = int(round(math.exp(rng.uniform(math.log(3), math.log(200)))))
     p = {"kind": kind, "cap0": cap0, "v0": v0, "vend": vend, "rs0": gen.sd(rng, 1e-3, 0.3), "n": n,
          "clamp": rng.random() < 0.7}
+    if rng.random() < 0.12:
+        p["rs0"] = 0.0               # an ideal battery model: zero impedance is an impedance like any other (the Source's own rs is irrelevant)
     r = rng.random()
     if r < 0.40:
         end, cutoff = "capacity", float("%.4g" % (vend * rng.uniform(0.3, 0.95)))
